@@ -23,15 +23,25 @@ static void sI_m(const int *d, vcase *c)
     else { c->n = c->m = 5; uint64_t p = 0; int b = 0; for (int i = 0; i < 5; i++) for (int j = 0; j < 5; j++) { if (i == j) p |= (uint64_t)1 << (i * 5 + j); else if (i < j) { if (((d[0] - 4096) >> b) & 1) p |= (uint64_t)1 << (i * 5 + j); b++; } } c->pat = p; }
     c->vals = 13 + d[1]; set_opts_digits(c, 1, 1, 0, d[2], d[3], 0); c->trans = 0; c->colperm = CP_I[d[4]]; set_tune(c, (int[]){ 2, 3, 0 }[d[5]]); c->type = d[6]; c->equil = 0; c->nrhs = 1; c->rhs = 1; c->u = 0.1; c->permid = -1; c->stor = 0;
 }
+/* numerically induced rank deficiency: entries that are tiny relative to their column (V4/V5/V7 scale rows and columns by 10^+-6) are dropped, a column of L can
+   come out empty and the factorization has to insert a fill-in pivot; all 4 x 4 patterns, and every deviation of the 6 x 6 bases */
+static void sI_z4(const int *d, vcase *c)
+{ c->n = c->m = 4; c->pat = (uint64_t)d[0]; c->vals = (int[]){ 4, 5, 7 }[d[1]]; set_opts_digits(c, 1, d[2], 0, 0, 0, 0); c->trans = 0; c->colperm = CP_I[d[3]]; set_tune(c, (int[]){ 3, 0, 2 }[d[4]]); c->type = d[5]; c->equil = 0; c->nrhs = 1; c->rhs = 1; c->u = 0.1; c->permid = -1; c->stor = 0; }
+static void sI_z6(const int *d, vcase *c)
+{ c->n = c->m = 6; c->pat = dev1_pattern(6, base_pattern(6, d[0]), d[1]); c->vals = (int[]){ 4, 5, 7 }[d[2]]; set_opts_digits(c, 1, d[3], 0, 0, d[6], 0); c->trans = 0; c->colperm = CP_I[d[4]]; set_tune(c, (int[]){ 3, 0, 2 }[d[5]]); c->type = d[7]; c->equil = 0; c->nrhs = 1; c->rhs = 1; c->u = 0.1; c->permid = -1; c->stor = 0; }
+#define FAM_Z4 { "tiny entries dropped, Equil off: ALL(4) x {V4,V5,V7} x BASIC tol{1e-4,.5} x {NATURAL,COLAMD} x tune{(2,1,2..),default,1-col} x type4", 6, { N_ALL4, 3, 2, 2, 3, 4 }, sI_z4 }
+#define FAM_Z6 { "tiny entries dropped, Equil off: DEV_1(BASE(6)) x {V4,V5,V7} x BASIC tol{1e-4,.5} x {NATURAL,COLAMD} x tune3 x milu{SILU,SMILU_2} x type4", 8, { 9, 37, 3, 2, 2, 3, 2, 4 }, sI_z6 }
 static const family FIQ[] = {
     { "ALL(1..3) x vals{V1,V0,V4,V5} x drop{NODROP,BASIC,BASIC|AREA,BASIC|PROWS} x tol{1e-4,.5} x fill{10,1} x norm{inf,1} x milu{SILU,SMILU_2} x rowperm{none,MC64} x trans{N,T} x colperm{NAT,COLAMD} x tune{default,(2,1,2..)} x type4", 12, { N_ALL123, 4, 4, 2, 2, 2, 2, 2, 2, 2, 2, 4 }, sI_a },
     { "DEV_1(BASE(6)) first 5 deviations x vals2 x drop4 x tol2 x fill2 x norm2 x milu2 x rowperm2 x trans{N,T} x colperm2 x tune2 x type4", 13, { 9, 5, 2, 4, 2, 2, 2, 2, 2, 2, 2, 2, 4 }, sI_b },
     { "modified-ILU cancellation (dropped mass = minus every pivot candidate): {n=4 all patterns with full diagonal, n=5 upper triangular} x vals{13,14} x BASIC tol .5 x norm3 x milu4 x {NATURAL,COLAMD} x tune{1-col,(2,1,2..),default} x type4", 7, { 5120, 2, 3, 4, 2, 3, 4 }, sI_m },
+    FAM_Z4, FAM_Z6,
 };
 static const family FIT[] = {
     { "ALL(1..3) x vals5 x drop7 x tol3 x fill3 x norm3 x milu4 x rowperm2 x trans3 x colperm3 x tune3 x type4", 12, { N_ALL123, 5, 7, 3, 3, 3, 4, 2, 3, 3, 3, 4 }, sI_a },
     { "DEV_1(BASE(6)) first 12 deviations x vals2 x drop7 x tol3 x fill3 x norm3 x milu4 x rowperm2 x trans3 x colperm3 x tune3 x {d,z}", 13, { 9, 12, 2, 7, 3, 3, 3, 4, 2, 3, 3, 3, 2 }, sI_b },
     { "modified-ILU cancellation (dropped mass = minus every pivot candidate): {n=4 all patterns with full diagonal, n=5 upper triangular} x vals{13,14} x BASIC tol .5 x norm3 x milu4 x {NATURAL,COLAMD} x tune{1-col,(2,1,2..),default} x type4", 7, { 5120, 2, 3, 4, 2, 3, 4 }, sI_m },
+    FAM_Z4, FAM_Z6,
 };
 static void sI_bt(const int *d, vcase *c) { int e[13]; memcpy(e, d, sizeof e); e[12] = d[12] ? TZ : TD; sI_b(e, c); }
 #define NF(F) ((int)(sizeof F / sizeof *F))
